@@ -21,7 +21,7 @@ package collection
 //@ macro smTag(m, k) = ite(has(m.dirtyOld, k), m.dirtyOld[k].tag, m.dirtyNew[k].tag)
 
 //@ func (*SafeMap).Get
-//@   prop C10
+//@   prop C10, C17
 //@   requires m != nil
 //@   ensures [found] result1 == smHas(m, key)
 //@   ensures [value] result1 ==> result0.val == smGet(m, key) && result0.tag == smTag(m, key)
@@ -35,7 +35,7 @@ package collection
 //@ macro dO(m, key, k) = old(has(m.dirtyOld, k)) && k != ifacekey(key)
 //@ macro dN(m, key, k) = old(has(m.dirtyNew, k)) && !(k == ifacekey(key) && !old(has(m.dirtyOld, ifacekey(key))))
 //@ func (*SafeMap).Del
-//@   prop C10
+//@   prop C10, C17
 //@   requires smOK(m)
 //@   loop 1 invariant m.dirtyOld == old(m.dirtyOld) && m.dirtyNew == old(m.dirtyNew)
 //@   loop 1 invariant forallk(k, int, has(m.dirtyOld, k) == dO(m, key, k) && (has(m.dirtyOld, k) ==> m.dirtyOld[k] == old(m.dirtyOld[k])))
@@ -51,7 +51,7 @@ package collection
 //@   modifies m.dirtyOld, m.dirtyNew, m.deletionOld, m.deletionNew, mapsof(m.dirtyOld)
 
 //@ func (*SafeMap).Put
-//@   prop C10
+//@   prop C10, C17
 //@   requires smOK(m)
 //@   ensures [representation-kept] smOK(m)
 //@   ensures [has] forallk(k, int, smHas(m, k) == (old(smHas(m, k)) || k == ifacekey(key)))
